@@ -248,10 +248,10 @@ _add("demux/name/pair-adapters/discard-untrimmed", option_set(r1=("one", "two"),
 _add("demux/combi", option_set(mode="first", r1=("one", "two"), r2=("x", "y", "z"), demux="combi", M="4", long_out=True), "tmk")
 _add("demux/combi/discard-untrimmed", option_set(r1=("one", "two"), r2=("x",), demux="combi", untrimmed="discard"), "mk")
 
-# thorough tier: the length notations again with interleaved files, and larger feature products
+# the length notations again with interleaved files; thorough tier: larger feature products
 for _mode in _MODES:
     for _m, _M in (("2", "4"), ("2:", ":4"), (":2", "4:"), ("1:3", "4:2")):
-        _add("length/interleaved-out/mode=%s/m=%s/M=%s" % (_mode, _m, _M), option_set(mode=_mode, m=_m, M=_M, short_out=True, long_out=True, interleaved=True), "t", thorough_only=True)
+        _add("length/interleaved-out/mode=%s/m=%s/M=%s" % (_mode, _m, _M), option_set(mode=_mode, m=_m, M=_M, short_out=True, long_out=True, interleaved=True), "t")
     _add("combined/all-filters/mode=%s" % _mode, option_set(mode=_mode, m="2:1", M="4", short_out=True, max_n=1, max_ee=1.0, casava=True, r1=("one", "two"), untrimmed="discard"),
          "tqcmk", TEXTS_MIX, timeout=3000, thorough_only=True)
 
